@@ -69,7 +69,7 @@ def _cases(tier):
 def build(tier, seed):
     cs = _cases(tier)
     normal = [c for c in cs if c.get("pl") != "twofiles" and "reeval" not in c]
-    other = [c for c in cs if c not in normal]
+    other = [c for c in cs if c.get("pl") == "twofiles" or "reeval" in c]
     tasks = [{"cases": normal[i : i + BATCH]} for i in range(0, len(normal), BATCH)]
     tasks += [{"singles": other[i : i + 24]} for i in range(0, len(other), 24)]
     tasks += [{"plugin": k} for k in ("parametrize", "import", "twofiles")]
